@@ -15,7 +15,15 @@ RULE = ("trees: event lists of length 1..100 (odd and even, 10% of length 1..4, 
         "mid-point; per event the summed interval length must equal rate/sum "
         "(1e-12 relative + 2 ulp per threshold), every probe must return an "
         "event of this node, escape rate = sum. A tree is non-trivial with >= 3 "
-        "events; distinct = hash of the rate list. Marcus: T 10..2000 K, lambda "
+        "events; distinct = hash of the rate list. Rebuilt trees (keys "
+        "tree-rebuilt/*): histories on ONE GNode / huffmanTree object, build "
+        "(1..60 events) -> probe -> 1..4 times {add events: one decay-like, one "
+        "comparable, 2..6, one 1e3..1e9 x larger, one 1e-9..1e-3 x smaller, one "
+        "equal to an existing one; InitEscapeRate; MakeHuffTree (direct: "
+        "setEvents + makeTree)} -> probe again with the same exact-measure "
+        "oracle over ALL current events, escape rate = sum of all current "
+        "rates (the KMCLifetime path: LoadGraph, then a decay event per site "
+        "and a rebuild). Marcus: T 10..2000 K, lambda "
         "0.005..2 eV split over the two segments (same type or balanced so that "
         "forward = backward), dE up to ~1 eV, fields 0 or 1e5..2e9 V/m in any "
         "direction (15% along the hop), |R| 0.2..3 nm, J 1e-7..0.1 eV, "
@@ -61,6 +69,7 @@ def run(chk):
     shards = 16
     ntree = vf.tier_n(chk.tier, 5000, 200000)
     nrate = vf.tier_n(chk.tier, 10000, 1000000)
+    nreb = vf.tier_n(chk.tier, 2000, 60000)
     nouter = vf.tier_n(chk.tier, 300, 3000)
     nwait = vf.tier_n(chk.tier, 100, 2000)
     chk.rule = RULE
@@ -77,6 +86,9 @@ def run(chk):
     for s in range(shards):
         jobs.append(job("marcus", s, (nrate + shards - 1) // shards))
         names.append("c14 marcus shard %d" % s)
+    for s in range(shards):
+        jobs.append(job("rebuilt", s, (nreb + shards - 1) // shards))
+        names.append("c14 rebuilt-tree shard %d" % s)
     jobs.append(job("lambda_outer", 0, nouter))
     names.append("c14 marcus with outer-sphere lambda")
     jobs.append(job("waiting", 0, nwait))
